@@ -28,21 +28,84 @@ def _apply(root, variant):
     return {rel: src[:idx] + new + src[idx + len(old):]}
 
 
+def apply_unified(diff_text, read):
+    """apply a `git diff` to file texts in memory (exact positions, no fuzz).  read(rel) -> text.  Returns {rel: new text} or None when a
+    hunk does not match (the tree is not the one the patch was made for)."""
+    import re
+    out, cur, lines, pos, res = {}, None, None, 0, None
+    files = re.split(r"^diff --git .*$", diff_text, flags=re.M)[1:]
+    for chunk in files:
+        m = re.search(r"^\+\+\+ b/(.+)$", chunk, flags=re.M)
+        if not m:
+            return None
+        rel = m.group(1).strip()
+        try:
+            src = read(rel).split("\n")
+        except OSError:
+            return None
+        new, pos = [], 0
+        for hm in re.finditer(r"^@@ -(\d+)(?:,(\d+))? \+\d+(?:,\d+)? @@.*\n((?:[ +\-\\].*\n?|\n)*)", chunk, flags=re.M):
+            start = int(hm.group(1)) - 1
+            if hm.group(2) == "0":
+                start += 1
+            new.extend(src[pos:start])
+            pos = start
+            for ln in hm.group(3).split("\n"):
+                if ln.startswith("\\") or (ln == "" ):
+                    continue
+                tag, body = ln[0], ln[1:]
+                if tag == " ":
+                    if pos >= len(src) or src[pos] != body:
+                        return None
+                    new.append(body)
+                    pos += 1
+                elif tag == "-":
+                    if pos >= len(src) or src[pos] != body:
+                        return None
+                    pos += 1
+                elif tag == "+":
+                    new.append(body)
+        new.extend(src[pos:])
+        out[rel] = "\n".join(new)
+    return out
+
+
+def _apply_patch(root, variant):
+    def read(rel):
+        with open(os.path.join(root, rel), encoding="utf-8") as fh:
+            return fh.read()
+    res = apply_unified(variant["diff"], read)
+    if res is None:
+        return None
+    pre = "circuitpython_nrf24l01/"
+    if not all(k.startswith(pre) for k in res):
+        return None
+    return {k[len(pre):]: v for k, v in res.items()}
+
+
 def _one(job):
     root, modname, pid, variant = job
     import importlib
     mod = importlib.import_module(modname)
-    ov = _apply(root, variant)
+    ov = _apply_patch(root, variant) if "diff" in variant else _apply(root, variant)
     if ov is None:
         return (variant["name"], "skipped", [])
+    ck = None
     try:
         prog = Program(root, overlay=ov)
         ck = report.Checker(pid, prog, "quick", root)
         mod.run(ck)
-    except AnalysisError as exc:
-        return (variant["name"], "error", [str(exc)])
     except Exception as exc:  # noqa
-        return (variant["name"], "error", [repr(exc)])
+        # like ./check: findings made before the analyser gave up are reported as findings
+        for ag in getattr(ck, "aggs", []) if ck is not None else []:
+            try:
+                ag.flush()
+            except Exception:  # noqa
+                pass
+        fails = sorted({o.rule + " " + o.func + " :: " + o.construct for o in ck.obls if not o.ok}) if ck is not None else []
+        if not fails:
+            return (variant["name"], "error", [str(exc) if isinstance(exc, AnalysisError) else repr(exc)])
+        return (variant["name"], "ran", fails)
     fails = sorted({o.rule + " " + o.func + " :: " + o.construct for o in ck.obls if not o.ok})
     if not fails and ck.floor_failures:
         return (variant["name"], "error", list(ck.floor_failures))
